@@ -150,6 +150,7 @@ fn walk(nodes: &[Node], dt: &mut DrawTarget, cx: &mut Context, model_clip: &mut 
                 let empty = !(0..w * h).any(|i| model_clip.in_rects(i % w, i / w));
                 o.class_if(empty, "layer-under-empty-clip");
                 o.class_if(count_draws(inner) >= 2, "multi-draw-group");
+                o.class_if(xf_det(&scratch_ctx.xf) == 0.0 && gp.iter().any(|p| *p != 0), "popped-under-singular-transform");
             }
         }
     }
@@ -193,11 +194,30 @@ pub fn strategy(ctx: &Ctx) -> BoxedStrategy<Case> {
             let group = (alpha_f(), blend_biased(), inner).prop_map(|(o, b, k)| Node::Layer(Fl(o), b, k));
             let clipped_group = (clip_push(&dd), group.clone()).prop_map(|(c, g)| Node::Clip(c, vec![g]));
             let pre = prop::collection::vec(draw_op(&ctx2, &dd).prop_map(Node::Op), 0..=1);
-            (Just((w, h)), init_pixels(w, h), pre, prop_oneof![1 => group.boxed(), 1 => clipped_group.boxed()], tree(&ctx2, &dd))
+            (Just((w, h)), init_pixels(w, h), pre, prop_oneof![1 => group.boxed(), 1 => clipped_group.boxed()], tree(&ctx2, &dd), prop::option::weighted(0.1, xf_singular()))
         })
-        .prop_map(|((w, h), init, pre, g, post)| {
+        .prop_map(|((w, h), init, pre, mut g, post, sing)| {
             let mut nodes = pre;
-            nodes.push(g);
+            // one group in ten is popped while a non-invertible transform is in force (set as the last call inside
+            // the group): the group must still be composited, pop_layer works in device space
+            if let Some(sx) = sing {
+                fn last_in_group(n: &mut Node, sx: Xf) {
+                    match n {
+                        Node::Layer(_, _, kids) => kids.push(Node::Op(Op::SetXf(sx))),
+                        Node::Clip(_, kids) => {
+                            if let Some(k) = kids.last_mut() {
+                                last_in_group(k, sx)
+                            }
+                        }
+                        _ => {}
+                    }
+                }
+                last_in_group(&mut g, sx);
+                nodes.push(g);
+                nodes.push(Node::Op(Op::SetXf(IDENT)));
+            } else {
+                nodes.push(g);
+            }
             // keep the tail short: one more node exercises "state unchanged by push/pop"
             nodes.extend(post.into_iter().take(1));
             Case { w, h, init, nodes }
@@ -209,7 +229,7 @@ pub fn property(ctx: &Ctx) -> Property {
     let c = ctx.clone();
     Property {
         id: "C06",
-        rule: "cases: properly nested histories with at least one push_layer_with_blend group (opacity in {0,1,0.5,1/255-neighbours,uniform}, 28 blend modes) at top level or under a clip (rect at an offset / partly off-surface / inverted, quarter-grid path), containing fills, fill_rects, masks, clear, image draws, quarter-pixel transform changes, balanced clip pushes and nested layers (depth <= 3), on non-transparent initial contents. Oracle: the group's inner ops are replayed without the layer on a separate transparent surface with the same transform and clip stack (nested layers judged recursively there); after pop every pixel must equal the compositor formula with source = isolated group pixel, coverage = round(255 opacity), clip coverage = product of pushed path coverages, blend = layer blend (exact at opacity 1 without partial clip, +-3/255 otherwise); outside the clip rectangle unchanged; the base surface must not change while the layer is open; push/pop leave the transform alone. Non-trivial: opacity != 1, blend != SrcOver, nesting >= 2, layer origin != (0,0) or clear inside; distinct by hash of the case.",
+        rule: "cases: properly nested histories with at least one push_layer_with_blend group (opacity in {0,1,0.5,1/255-neighbours,uniform}, 28 blend modes) at top level or under a clip (rect at an offset / partly off-surface / inverted, quarter-grid path), containing fills, fill_rects, masks, clear, image draws, quarter-pixel transform changes (one group in ten ends by setting a non-invertible transform, so that it is popped under it), balanced clip pushes and nested layers (depth <= 3), on non-transparent initial contents. Oracle: the group's inner ops are replayed without the layer on a separate transparent surface with the same transform and clip stack (nested layers judged recursively there); after pop every pixel must equal the compositor formula with source = isolated group pixel, coverage = round(255 opacity), clip coverage = product of pushed path coverages, blend = layer blend (exact at opacity 1 without partial clip, +-3/255 otherwise); outside the clip rectangle unchanged; the base surface must not change while the layer is open; push/pop leave the transform alone. Non-trivial: opacity != 1, blend != SrcOver, nesting >= 2, layer origin != (0,0) or clear inside; distinct by hash of the case.",
         assumptions: vec!["the inner draws themselves (on a plain surface) are judged by C02/C03/C05", "improperly interleaved stacks (popping inside a layer a clip pushed outside it) are outside the statement and not generated"],
         parts: vec![part("group", 100_000, 1_500_000, move || strategy(&c), check)],
         min_class_fraction: vec![
@@ -219,6 +239,7 @@ pub fn property(ctx: &Ctx) -> Property {
             ("group", "layer-origin-nonzero", 0.1),
             ("group", "clear-inside-layer", 0.03),
             ("group", "layer-under-clip-path", 0.1),
+            ("group", "popped-under-singular-transform", 0.015),
         ],
         panic_is_violation: false,
     }
